@@ -611,6 +611,21 @@ def timeoutDeadline (nowSecs limitSecs : Int) : Res Int :=
 def timeoutTick (since interval : Int) : Res (Option Int) :=
   if since < interval then (ckUsize (since + 1)).map' some else .ok none
 
+/-! ## `KotoVm::next_register` and the operations native code starts on the running VM -/
+
+/-- `next_register()` since b752efa: `next = registers.len() - register_base`; an error when fewer
+than 8 ids are left (`next + 8 > u8::MAX`), else `next as u8` -/
+def nextRegister (next : Int) : Res Int := if next + 8 > 255 then .err else .ok next
+
+/-- before b752efa: `(registers.len() - register_base) as u8` -/
+def nextRegisterUnguarded (next : Int) : Res Int := .ok (castU8 next)
+
+/-- `run_unary_op` (`extra = 1`), `run_binary_op` (`extra = 2`), `call_and_run_function`, read / write
+ops: `result_register = next_register()?`, then operand registers `result_register + 1 ..= extra` (u8) -/
+def hostOp (guarded : Bool) (next extra : Int) : Res Int :=
+  (if guarded then nextRegister next else nextRegisterUnguarded next).bind fun r =>
+    (ckU8 (r + extra)).bind fun _ => .ok r
+
 /-! ## compiler `Frame` (crates/bytecode/src/frame.rs), `u8` arithmetic -/
 
 /-- `Frame::new`: `1 + local_count + captures.len() as u8 + placeholders as u8` -/
